@@ -90,6 +90,69 @@ func c14Emit(c *Ctx, cfg wcfg, data []byte, parts []int, readFrom bool, srcMode 
 	return sink.Buf, true
 }
 
+// c14EmitAfterHistory emits the stream with a Writer that has a past: another frame with other
+// options (block size, checksums) that was closed (1), abandoned by Reset in mid-frame (2), or
+// whose header write failed (3); then Reset onto a new sink and Apply of the options under test.
+// "Output is a pure function of the input bytes and the settings": the frame must equal the
+// one of a new Writer.
+func c14EmitAfterHistory(c *Ctx, cfg wcfg, data []byte, hist int, g *prng.Rng) ([]byte, bool) {
+	other := cfg
+	other.bs = lz4.Block256Kb
+	if cfg.bs == lz4.Block256Kb {
+		other.bs = lz4.Block64Kb
+	}
+	other.bc, other.cc, other.size = !cfg.bc, !cfg.cc, 0
+	past := mixData(g, 70000+g.N(300000))
+	sink := &gen.Sink{Budget: 1000 + 16*(len(data)/65536+8)}
+	var failed error
+	wr := c.Watch("Writer", func() {
+		first := &gen.Sink{Budget: 4000}
+		if hist == 3 {
+			first.FailFrom = 1
+		}
+		w := lz4.NewWriter(first)
+		if err := w.Apply(other.opts()...); err != nil {
+			failed = err
+			return
+		}
+		_, werr := w.Write(past)
+		switch hist {
+		case 1:
+			if werr == nil {
+				werr = w.Close()
+			}
+			if werr != nil {
+				failed = werr
+				return
+			}
+		case 3:
+			_ = w.Close() // returns the sink's error
+		}
+		w.Reset(sink)
+		if err := w.Apply(cfg.opts()...); err != nil {
+			failed = err
+			return
+		}
+		if _, err := writeRecycled(w, data); err != nil {
+			failed = err
+			return
+		}
+		failed = w.Close()
+	})
+	if wr.Deadlocked {
+		c.Violation("deadlock/writer", "a Writer call never returns: every library goroutine is parked", map[string]interface{}{"config": cfg.String(), "goroutines": wr.Dump, "history": hist})
+		return nil, false
+	}
+	if wr.Panicked {
+		return nil, false
+	}
+	if failed != nil {
+		c.Violation("writer-call-failed/after-history", fmt.Sprintf("a call on a reused Writer failed on a healthy sink: %v [%s, history %d]", failed, cfg, hist), nil)
+		return nil, false
+	}
+	return sink.Buf, true
+}
+
 func c14FrameCase(c *Ctx, i int64) {
 	g := c.Rng(i)
 	k := int(i)
@@ -174,6 +237,20 @@ func c14FrameCase(c *Ctx, i int64) {
 				c.Violation(key, fmt.Sprintf("stream of %d bytes, %s: concurrency %d with %d Write calls (style %d, %s) emitted %d bytes that differ from one Write at concurrency 1 (%d bytes)", len(data), cfg, conc, len(parts), st, pname, len(got), len(refW)), det(fmt.Sprintf("partition-style-%d", st), conc))
 			}
 			c.Cell(fmt.Sprintf("frame/%s/len%s/conc%d/style%d/%s", cfg.cell(), sizeBucketK(len(data)), conc, st, pname[:4]))
+		}
+		if !cfg.legacy && (conc == 1 || conc == 4) {
+			for hist := 1; hist <= 3; hist++ {
+				got, ok := c14EmitAfterHistory(c, cfg2, data, hist, g)
+				c.Count("frame_emissions", 1)
+				c.Count("frame_emissions_after_history", 1)
+				if !ok {
+					continue
+				}
+				if !bytes.Equal(got, refW) {
+					c.Violation("frame-depends-on-writer-history", fmt.Sprintf("stream of %d bytes, %s, concurrency %d: a Writer that first handled another frame with other options (%s), then Reset and Apply, emitted %d bytes that differ from a new Writer's %d bytes", len(data), cfg, conc, []string{"", "closed", "abandoned in mid-frame", "header write failed"}[hist], len(got), len(refW)), det(fmt.Sprintf("history-%d", hist), conc))
+				}
+				c.Cell(fmt.Sprintf("frame/%s/len%s/conc%d/history%d", cfg.cell(), sizeBucketK(len(data)), conc, hist))
+			}
 		}
 		if ok2 {
 			for _, sm := range []int{gen.ReadPlain, gen.ReadRandom, gen.ReadWithEOF, gen.ReadZeroMixed} {
